@@ -72,7 +72,7 @@ CCAP = 160         # maximal number of tabulated rule calls of a completion
 
 
 def budget(tier):
-    return 800 if tier == "quick" else 10000
+    return 2000 if tier == "quick" else 16000
 
 
 # ------------------------------------------------------------------------------------------------
